@@ -22,7 +22,7 @@ CHECKS = {
                      "across 30/31 and multi-octet forms, definite/indefinite, nesting) and reference DER of generated types; output must "
                      "re-encode to the identical bytes and every O/T/TL/V/L attribute must equal the independent parse; mutated, random and "
                      "nesting-bomb inputs check the safety clause (exit status, diagnostic, no sanitizer report, no hang).",
-                note="Trusts vf/asn/der.py:parse_tlv; inputs are sampled; bombs to depth 10^4 (quick) / 10^5 (thorough)."),
+                note="Trusts vf/asn/der.py:parse_tlv; inputs are sampled; bombs to depth 10^4 (quick) / 10^5 (thorough). unber's default (value-printing) mode runs on the whole corpus and on hostile inputs (sanitizer/signal only)."),
     "C01": dict(level="exploration", engine="vdriver", ref="DESIGN.md 4/C01",
                 technique="sanitizer-watched round-trip/transcoding workload over generated modules; self-consistency monitor over the driver event log with an independent DER anchor",
                 text="Generated modules over the type algebra of the statement are compiled with the asn1c of the current tree and linked (ASan+UBSan+ledger) "
@@ -59,7 +59,7 @@ CHECKS = {
                      "invocation index (capped at 48), asn_encode_to_buffer into exact-size heap buffers of every size 0..n,n+1,n+7, asn_encode_to_new_buffer "
                      "also under allocation failure; invariants on rc, errno, bytes delivered, NULL-on-failure, no crash/abort/hang; success on an invalid "
                      "structure must decode back to an equal value.",
-                note="Structures reachable through BER decoding plus seven walker transformations; fixed modules drive encodings across power-of-two totals, fixed-size strings with wrong lengths, stored DEFAULTs; sizes sampled above 64 bytes; one fault per call."),
+                note="Structures reachable through BER decoding plus seven walker transformations; fixed modules drive encodings across power-of-two totals, fixed-size strings with wrong lengths, stored DEFAULTs; sizes sampled above 64 bytes; one fault per call. A mandatory pointer member is also removed by name (mutually recursive types) and must make every encoder fail; one -fwide-types build with INTEGERs up to 2^300."),
     "C12": dict(level="exploration", engine="compiler-monitor", ref="DESIGN.md 4/C12",
                 technique="history monitor over repeated / permuted / print-reparse runs of the ASan-built asn1c with byte comparison of outputs",
                 text="The asn1c of the current tree is run on generated single- and multi-module sets and on the shipped modern-syntax corpus: twice (three times) under "
@@ -99,7 +99,7 @@ CHECKS = {
                      "permutation, INTEGER sign-extension padding, DEFAULT materialisation via default_value_set, unused-bit noise) and by decoding valid non-canonical "
                      "BER of the same value (member reordering, explicit DEFAULTs, dirty unused bits, constructed strings, length forms); DER, CANONICAL-XER, canonical "
                      "UPER and OER of each must equal the base's and compare_struct must be 0; default and -fwide-types builds.",
-                note="Only value-preserving transformations; transformations without a site in the value are not counted; values sampled."),
+                note="Only value-preserving transformations; transformations without a site in the value are not counted; values sampled. BER variants include non-DER notations of GeneralizedTime/UTCTime values (findings listed for UTCTime everywhere and GeneralizedTime under PER/OER)."),
     "C08": dict(level="exploration", engine="vdriver", ref="DESIGN.md 4/C08",
                 technique="reference-model monitor: asn_check_constraints verdicts on valid / single-fault / multi-fault values vs X.680 constraint-set semantics; exact-size error buffers under ASan",
                 text="Generated modules with non-extensible value/SIZE/FROM constraints at every depth; valid values, single-fault mutants (one constraint violated at one "
@@ -112,13 +112,13 @@ CHECKS = {
                      "marker and additions, serial application and reference chains, random trees over 64-bit/16K/64K boundaries; values at and around every bound enter "
                      "by BER, are encoded in UPER and OER by the generated codecs (ASan build) and compared with the reference encoders; own output must decode back; "
                      "printed PER-/OER-visible ranges must have the reference bounds and extensibility; types with equal effective constraints must produce equal bytes.",
-                note="Also sampled depth-3 trees and contained subtypes (INCLUDES); quick runs a seed-dependent slice of the depth-2 tree space, thorough all of it; values are sampled around the bounds, not enumerated; values in holes of an extensible root are not judged."),
+                note="Also sampled depth-3 trees and contained subtypes (INCLUDES); quick runs a seed-dependent slice of the depth-2 tree space, thorough all of it; values are sampled around the bounds, not enumerated; values in holes of an extensible root are not judged. Also unions narrowed across two of their pieces and SIZE bounds on the 64K edge."),
     "C13": dict(level="exploration", engine="vdriver", ref="DESIGN.md 4/C13",
                 technique="differential monitor: the same (module, value) script run by drivers generated under different asn1c option sets; event logs (rc, bytes) compared column by column with the default build's (ASan-watched)",
                 text="One module is generated under subsets of {-fwide-types, -fcompound-names, -findirect-choice, -fno-include-deps, -fincludes-quoted, -fno-constraints} "
                      "and with -no-gen-OER / -no-gen-PER; every build decodes the reference DER, emits DER/UPER/OER/CXER/BXER and decodes the default build's outputs; "
                      "each column must equal the default build's (its own reading of its outputs is the yardstick for cross-decoding).",
-                note="quick: default + each single option + 2 random subsets for 2 modules; thorough: all 64 subsets for 2 modules, random subsets for 8 more; option sets that do not build are inconclusive (C10)."),
+                note="quick: default + each single option + 2 random subsets for 2 modules; thorough: all 64 subsets for 2 modules, random subsets for 8 more; option sets that do not build are inconclusive (C10). The fixed OPT module includes untagged CHOICE inside untagged CHOICE."),
     "C18": dict(level="exploration", engine="vdriver", ref="DESIGN.md 4/C18",
                 technique="reference-model + safety monitor: generated CLASS/object-set modules; open-type frames judged against reference DER / X.691 open-type framing and the element names in CANONICAL-XER; mismatches, unknown identifiers and mutants under ASan+UBSan with the allocation ledger",
                 text="Modules with a CLASS { &id UNIQUE, &Type }, an object set of 1..8 rows (inline / named objects, extensible or not, INTEGER / INTEGER (0..255) / OBJECT IDENTIFIER "
@@ -132,7 +132,7 @@ CHECKS = {
                 text="TSan build of skeletons + generated code + vf/driver/tdriver.c; 2/4/8/16 threads behind a barrier each decode, encode (all syntaxes, shuffled), validate, "
                      "print, convert time types, decode the library's own output, compare and free their own structures; repeated with different seeds and thread counts; "
                      "evidence counts the distinct (operation, type kind) pairs observed overlapping in time.",
-                note="Schedules are sampled; asn_random_fill is not driven; quick: 1 module x 6 runs, thorough: 4 modules x 40 runs."),
+                note="Schedules are sampled; asn_random_fill is not driven; quick: 1 module x 6 runs, thorough: 4 modules x 40 runs. Every other decode passes one static codec context shared by all threads; one round runs a module with an object set (generated type selectors)."),
 }
 
 PENDING_REASON = "check not implemented yet (bring-up in progress; see DESIGN.md section 9)"
